@@ -66,7 +66,7 @@ Definition scripted (r : outcome value) : body := fun _ _ => r.
 
 (* [model outcome; c03_args_bad; c03_result_bad; c04_call_ok; c04_result_ok; c05_positional; no_oneshot_iter;
     no_iterator_consumed; result_intact; does the model hand the caller a result with fewer live iterators than the body returned;
-    c03_positional_bad;
+    c03_positional_bad; should_have_kwargs;
     -3; model journal ...; -4; twin outcome; twin journal ...] *)
 Definition eval_call (mode : nat) (cl : list (nat * cls)) (f : fn) (c : call) (r : outcome value) : list Z :=
   let ctx := ctx_of cl in
@@ -77,7 +77,7 @@ Definition eval_call (mode : nat) (cl : list (nat * cls)) (f : fn) (c : call) (r
    enc_b (c04_call_ok ctx f c); enc_b (c04_result_ok ctx f r); enc_b (c05_positional f c); enc_b (no_oneshot_iter f c);
    enc_b (no_iterator_consumed Gen.CheckerTables.checker_cfg f c); enc_b (result_intact Gen.CheckerTables.checker_cfg f r);
    enc_b (match fst m, r with Ok v', Ok v => Nat.ltb (live v') (live v) | _, _ => false end);
-   enc_b (c03_positional_bad ctx f c); -3]
+   enc_b (c03_positional_bad ctx f c); enc_b (should_have_kwargs Gen.Pedantic.pedantic_cfg f); -3]
   ++ journal_code (snd m) ++ [-4; out_code (fst t)] ++ journal_code (snd t).
 
 (* ---------------- generator functions ---------------- *)
